@@ -52,18 +52,28 @@ func c01Rewrite(c *core.Ctx) {
 	}
 	fns := reach(f, 2)
 	vf := newMuxFlow(fns)
-	fieldIn := func(e ast.Expr, fld *types.Var) bool {
+	var fieldInD func(e ast.Expr, fld *types.Var, depth int) bool
+	fieldInD = func(e ast.Expr, fld *types.Var, depth int) bool {
 		found := false
 		ast.Inspect(e, func(n ast.Node) bool {
-			if sel, ok := n.(*ast.SelectorExpr); ok {
-				if s := f.Info.Selections[sel]; s != nil && s.Obj() == fld {
+			switch x := n.(type) {
+			case *ast.SelectorExpr:
+				if s := f.Info.Selections[x]; s != nil && s.Obj() == fld {
 					found = true
 				}
+			case *ast.Ident:
+				// a named local for a sub-expression: suffix := path[len(mp.pathPrefix):]
+				if o, isVar := vf.obj(x).(*types.Var); isVar && depth < 3 {
+					if d := vf.singleDef(o); d != nil && fieldInD(d, fld, depth+1) {
+						found = true
+					}
+				}
 			}
-			return true
+			return !found
 		})
 		return found
 	}
+	fieldIn := func(e ast.Expr, fld *types.Var) bool { return fieldInD(e, fld, 0) }
 	// mode of an expression that becomes the new path
 	modeOf := func(e ast.Expr) string {
 		e = ast.Unparen(e)
